@@ -37,6 +37,24 @@ CHECKS = {
  'C20': ('exploration', 'stateless model checking: controlled scheduler + deviation-bounded DFS with an environment thread (cache eviction / clear / TTL expiry events)',
          'A thread commits a write and then starts a new reading transaction while a concurrent reader (and, in some scenarios, an environment thread that evicts L1, clears L2 or advances the virtual clock past the cache TTLs) is scheduled at every position within the deviation bound; a read of a transaction that began after a Commit returned must return that commit (or a later one), and after quiescence the warm view of a new transaction must equal the cold view.',
          'Standalone (in-memory L2) caching only: the Redis adapter is not exercised (no Redis server or miniredis in this sandbox); one OS process.', '6/C20', 'SCHED', True),
+ 'C16': ('fault_enumeration', 'exhaustive enumeration of every combination of <=2 injected failures over participants x phases x every L2 call of Commit',
+         'A real SOP transaction (filesystem backend, one pending write on a pre-committed store) with 0-3 scripted two-phase participants; every single fault and every pair of faults over {participant Begin/Phase1/Phase2/Rollback, SOP Begin/Phase1/Phase2/Rollback, every L2 cache call index made during Commit} is run; the call log must show no participant Phase2Commit unless every Phase1Commit and SOP\'s Phase2Commit returned nil, and whenever Commit (or Begin) fails the store reads as before (same process and fresh process) and every begun participant got Rollback.',
+         'SOP-side failures are injected through a fault-injecting L2 cache decorator and a recorder around the SOP two-phase transaction; disk I/O faults and concurrency are not part of this check.', '6/C16', 'FAULTX', True),
+ 'C21': ('model_checking', 'explicit-state BFS over the real fs registry with colliding ids; independent raw .reg reader',
+         'Breadth-first search with state de-duplication over the real fs.NewRegistry on tmpfs: ids constructed to share block and slot (slots 0, 3, 65), block-filling sets that overflow into segment files 2-4, hash mods 250/251/1000 (750000 in thorough); alphabet Add/Update/UpdateNoLocks/Remove/batched variants/Fill/Unfill to depth 6 (7-9 thorough). After every transition: call result, cold and warm Get of every id, and a raw scan by an independent reader (CRC per block, one slot per id, slot content = last written handle, nothing for absent ids) against a map model.',
+         'Add of a present id and Update of an absent id are treated as illegal usage; versions and depth bounded; no configuration closes its whole space (depth-bounded).', '6/C21', 'SEQX', True),
+ 'C23': ('exploration', 'exhaustive single-bit flips and aligned bursts of a registry block x backup situations x 7 calls',
+         'A block written through the real registry (5 handles incl. slot 65 next to the CRC) is corrupted with every one of the 32768 single-bit flips and zeroed/inverted runs of 2/62/512 bytes at every aligned offset, under 6 backup situations (no .cow, empty, bad CRC, wrong size, valid copy, valid older copy), and then read/updated with cold caches through Get, Update, UpdateNoLocks, Add, Remove: without a valid backup every call must fail, serve no handle from the block and leave its bytes unchanged; with a valid backup the block is restored and served.',
+         'All-zero block = never written (out of scope); quick tier runs the full flip set against "no backup" and a subset against all situations (thorough: everything x everything).', '6/C23', 'SEQX', True),
+ 'C25': ('fault_enumeration', 'exhaustive assignment of 10 damage kinds to every shard file x configs x sizes; every subset of failing shard writes',
+         'Real fs.NewBlobStoreWithEC on d+p tmpfs folders, (d,p) in {(1,1),(2,1),(2,2),(3,2),(4,2)}, blob sizes {0,1,2,3,d-1,d,d+1,17,31,4096}: every assignment of {intact, missing, truncated to 0/5/16/17/len-1, body byte flipped, pad-count byte flipped, checksum byte flipped} to the shard files (full product for d+p<=4, all patterns with <=p+1 damaged plus uniform patterns for the larger configs in quick; full in thorough) and every subset of failing shard writes. <=p damaged => exact bytes; >p => error, never wrong bytes; Add succeeds iff <=p writes fail; each case runs in a child process so a process-killing panic is attributed to its case.',
+         'One fixed flip offset/bit per damage kind; only WriteFile failures on the write side.', '6/C25', 'FAULTX', True),
+ 'C26': ('fault_enumeration', 'exhaustive damage patterns with <=p damaged shards, then every pattern of p further failures',
+         'With RepairCorruptedShards=true, for every damage pattern of C25 with at most p damaged shards: after one successful read every shard file must be byte-identical to a fresh encode, and the blob must then survive every pattern of p new failures (missing / body flip; more kinds in thorough).',
+         'Repair-write failures are not injected.', '6/C26', 'FAULTX', True),
+ 'C34': ('exploration', 'complete product of callers x resources x visibilities x owners x grants x actions vs independent decision table',
+         'The full product of 97 callers (role lists over Admin/User/Guest, user ids, IsSystem, no auth) x resource names (SOP, LongTermMemory, ordinary) x visibilities x owners x 64 role-grant maps x 16 user-grant maps x 5 actions (17.9M tuples; 1.09G in thorough) is evaluated on CheckPolicy, EnforcePolicy, CanPerformAction, Authorize and ResolveRBACMap against a decision table written from the statement; over- and under-permit and UI/enforcement disagreement are separate signatures.',
+         'Unset visibility "" and grants under the empty user id are reported but not judged; blueprints with custom evaluators (tools/httpserver) are outside the anchors.', '6/C34', 'SEQX', True),
 }
 NA_REASON = 'check not built yet in this session; no claim is made (see DESIGN.md section 6 for the plan)'
 
@@ -71,6 +89,7 @@ manifest = {
         'add_only': True,
     },
     'engines': [
+        {'name': 'FAULTX', 'path': 'mc/cmd', 'serves_properties': [p for p in ids if p in CHECKS and CHECKS[p][5] == 'FAULTX'], 'kind_free_text': 'exhaustive fault / damage / crash-point enumeration against the real code with reference-model and on-disk oracles, cases isolated in child processes'},
         {'name': 'SCHED', 'path': 'mc/sched', 'serves_properties': [p for p in ids if p in CHECKS and CHECKS[p][5] == 'SCHED'], 'kind_free_text': 'cooperative scheduler over hooked L2/registry/file/sleep operations of the real code + deviation-bounded DFS (stateless model checking), sharded over worker processes'},
         {'name': 'SEQX', 'path': 'mc/cmd', 'serves_properties': [p for p in ids if p in CHECKS and CHECKS[p][5] == 'SEQX'], 'kind_free_text': 'bounded exhaustive operation-sequence / explicit-state search driving the real code, reference-model oracle'},
     ],
